@@ -322,6 +322,33 @@ func C10(c *core.Ctx) {
 			}
 		}
 		c.Check("R4", "report-node", fn.Pos(), good, "the destination is derived from the node id of the session the report belongs to")
+		// on every path: the destination handed on is computed only from constants and from fields of the
+		// owning node that a takeover (UpdateNodeID) keeps current
+		kept := map[string]bool{}
+		if up := p.SSAFn(p.Method(pkgPfcp, "PfcpServer", "UpdateNodeID")); up != nil {
+			core.Instrs(up, func(in ssa.Instruction) {
+				if st, ok := in.(*ssa.Store); ok {
+					if fa, ok := st.Addr.(*ssa.FieldAddr); ok && fa.X == ssa.Value(core.Param(up, 0)) {
+						kept[core.FieldOfAddr(fa).Name()] = true
+					}
+				}
+			})
+		}
+		for _, name := range []string{"serveUSAReport", "serveDLDReport"} {
+			for _, ci := range core.Calls(fn, p.Method(pkgPfcp, "PfcpServer", name)) {
+				bad := ""
+				for _, t := range destTerminals(core.CallArgs(ci)[0]) {
+					if t == "const" {
+						continue
+					}
+					if strings.HasPrefix(t, "field:rnode.") && kept[strings.TrimPrefix(t, "field:rnode.")] {
+						continue
+					}
+					bad = t
+				}
+				c.Check("R4", "report-node-current:"+name, ci.Pos(), bad == "", "the destination is computed only from owning-node fields that a session takeover updates (UpdateNodeID writes "+strings.Join(sortedKeys(kept), ",")+"); offending source: "+bad)
+			}
+		}
 		for _, name := range []string{"serveUSAReport", "serveDLDReport"} {
 			for _, ci := range core.Calls(fn, p.Method(pkgPfcp, "PfcpServer", name)) {
 				_, kn := core.FieldPath(core.CallArgs(ci)[1])
@@ -329,6 +356,9 @@ func C10(c *core.Ctx) {
 			}
 		}
 	}
+
+	// R6 cause mapping (shared with C19 R4): the cause a report carries is the one the data plane raised
+	renameRule(c, "R4", "R6", func() { checkCauseMapping(c) })
 
 	// R5 batch isolation
 	for _, e := range emissionSites {
@@ -559,4 +589,86 @@ func ieBuilderSummary(fn *ssa.Function) string {
 		out = append(out, it.s)
 	}
 	return strings.Join(out, ";")
+}
+
+// destTerminals walks the computation of an address value backwards through phis, conversions,
+// net.Resolve*Addr and fmt.Sprintf and lists what it is made of: "const", "field:<path>" or "other:<what>".
+func destTerminals(v ssa.Value) []string {
+	seen := map[ssa.Value]bool{}
+	var out []string
+	var walk func(v ssa.Value, d int)
+	walk = func(v ssa.Value, d int) {
+		if v == nil || seen[v] {
+			return
+		}
+		seen[v] = true
+		if d > 25 {
+			out = append(out, "other:depth")
+			return
+		}
+		switch x := v.(type) {
+		case *ssa.Const:
+			out = append(out, "const")
+		case *ssa.Phi:
+			for _, e := range x.Edges {
+				walk(e, d+1)
+			}
+		case *ssa.Extract:
+			walk(x.Tuple, d+1)
+		case *ssa.MakeInterface:
+			walk(x.X, d+1)
+		case *ssa.ChangeInterface:
+			walk(x.X, d+1)
+		case *ssa.ChangeType:
+			walk(x.X, d+1)
+		case *ssa.Convert:
+			walk(x.X, d+1)
+		case *ssa.TypeAssert:
+			walk(x.X, d+1)
+		case *ssa.Call:
+			f := core.Callee(x)
+			switch {
+			case f != nil && f.Pkg() != nil && f.Pkg().Path() == "net" && strings.HasPrefix(f.Name(), "Resolve"):
+				for _, a := range x.Call.Args {
+					walk(a, d+1)
+				}
+			case core.IsPkgFunc(f, "fmt", "Sprintf"):
+				walk(x.Call.Args[0], d+1)
+				for _, a := range variadicValues(x.Call.Args[1]) {
+					walk(a, d+1)
+				}
+			default:
+				n := "?"
+				if f != nil {
+					n = f.FullName()
+				}
+				out = append(out, "other:call "+n)
+			}
+		case *ssa.UnOp:
+			if _, names := core.FieldPath(x); len(names) > 0 {
+				out = append(out, "field:"+strings.Join(names, "."))
+				return
+			}
+			if al, ok := x.X.(*ssa.Alloc); ok {
+				if sv, ok := core.SingleStore(al); ok {
+					walk(sv, d+1)
+					return
+				}
+			}
+			out = append(out, "other:load")
+		default:
+			out = append(out, fmt.Sprintf("other:%T", v))
+		}
+	}
+	walk(v, 0)
+	return out
+}
+
+func sortedKeys(m map[string]bool) []string {
+	var out []string
+	for k := range m {
+		out = append(out, k)
+	}
+	sort.Strings(out)
+	return out
 }
